@@ -38,16 +38,41 @@ CAP = 60
 
 
 # =================================================================== programs
-def make_specs(run, n):
+def make_specs(run, n, quick):
+    """quick: depths 6/5/4 in turn and a 40 s cap (generation at depth 6 takes up to a minute on a loaded machine);
+    thorough: the tool's default depth 6 for three programs of four"""
     sws = pipeline.all_switch_settings()
     seeds = run.rng.sample(range(1, 10 ** 6), n)
     specs = []
+    depths = (6, 5, 4) if quick else (6, 6, 5, 6)
     for i, s in enumerate(seeds):
         pkg = "q%05d" % i
-        specs.append({"lang": "java", "seed": s, "switches": list(sws[i % 16]), "max_depth": MAX_DEPTH,
-                      "stages": ["gen", "erase"], "export": False, "translate": ["java"], "cap": CAP,
+        specs.append({"lang": "java", "seed": s, "switches": list(sws[i % 16]), "max_depth": depths[(i // 16 + i) % len(depths)],
+                      "stages": ["gen", "erase"], "export": False, "translate": ["java"], "cap": 40 if quick else CAP,
                       "plugins": ["trans_java"], "package": "src." + pkg, "pkg": pkg})
     return specs
+
+
+def run_budgeted(run, specs, budget_s):
+    """`pipeline.run_many` with a wall-clock budget for the whole set (quick tier: the machine is shared, generation
+    at depth 6 can take a minute under load): programs not finished when the budget ends are counted, not compared"""
+    import multiprocessing as mp
+    ctx = mp.get_context("fork")
+    workers = min(14, max(1, (os.cpu_count() or 2) - 2))
+    pool = ctx.Pool(workers, initializer=pipeline._worker_init, maxtasksperchild=50)
+    try:
+        pending = [pool.apply_async(pipeline.run_one, (sp,)) for sp in specs]
+        deadline = time.time() + budget_s
+        results = []
+        for a in pending:
+            try:
+                results.append(a.get(timeout=max(0.05, deadline - time.time())))
+            except mp.TimeoutError:
+                run.tally("pipeline", "not-finished-within-quick-budget")
+        return results
+    finally:
+        pool.terminate()
+        pool.join()
 
 
 def replay_key(spec, stage):
@@ -138,7 +163,7 @@ def text_stream(run, st, results):
                   nontrivial=len(rq["decls"]) > 1)
         run.tally("ops", "trans.java")
         tally_features(run, model)
-        files.append({"spec": spec, "stage": stage, "text": real, "pkg": spec["pkg"] + ("g" if stage == "gen" else "e"),
+        files.append({"spec": spec, "stage": stage, "text": real, "pkg": spec["pkg"],
                       "transformed": transformed})
         if trans_java.MODEL["fuel_mark"] in model:
             st["diffs"].append({"kind": "fuel", "replay": replay_key(spec, stage)})
@@ -322,17 +347,28 @@ def signature(stage, text, msgs, block):
     return "java:%s:%s:%s" % (stage, construct, head)
 
 
-def javac_stream(run, st, files, quick):
-    if not files:
-        return
-    t0 = time.time()
-    verdict, crash, out, stray = compile_batch(files)
+def javac_start(run, ex, files, quick):
+    """submit one stage's files (one source tree) as the reference batch and, concurrently, a random sample file by file"""
+    byf = {f["pkg"]: f for f in files}
+    nalone = 5 if quick else 24
+    sample = run.rng.sample(sorted(byf), min(len(byf), nalone))
+    return {"files": files, "byf": byf, "t0": time.time(), "nalone": nalone, "batch": ex.submit(compile_batch, files),
+            "alone": {p: ex.submit(compile_batch, [byf[p]]) for p in sample}}
+
+
+def javac_finish(run, st, job, quick):
+    """judge the reference batch; compare with the files compiled alone (every rejected file too) and, thorough,
+    with batches of other sizes"""
+    files, byf, t0, nalone = job["files"], job["byf"], job["t0"], job["nalone"]
+    verdict, crash, out, stray = job["batch"].result()
     st["javac_batch_s"] = round(time.time() - t0, 1)
-    run.cov["javac_batch"] = {"files": len(files), "seconds": st["javac_batch_s"], "crash": bool(crash),
-                              "output_terminated": out == "" or out.endswith("\n")}
+    alone = {p: fu.result() for p, fu in job["alone"].items()}
+    alone_s = round(time.time() - t0, 1)
+    run.cov.setdefault("javac_batches", []).append(
+        {"stage": files[0]["stage"], "files": len(files), "seconds": st["javac_batch_s"], "crash": bool(crash),
+         "output_terminated": out == "" or out.endswith("\n")})
     if stray:
         raise HarnessError("javac reported files that were not emitted: %r" % stray[:3])
-    byf = {f["pkg"]: f for f in files}
     for pkg, msgs in verdict.items():
         f = byf[pkg]
         run.tally("javac_verdicts", "%s:%s" % (f["stage"], "rejected" if msgs else "accepted"))
@@ -345,22 +381,14 @@ def javac_stream(run, st, files, quick):
     if crash:
         st["rejections"].append({"signature": "java:compiler-crash", "file": None, "messages": [str(crash)[:500]], "diagnostic": []})
     # --- batching must not change a verdict
-    rejected = [p for p, m in verdict.items() if m]
-    accepted = [p for p, m in verdict.items() if not m]
-    nalone = 10 if quick else 48
-    sample = rejected[:nalone // 2]
-    sample += run.rng.sample(accepted, min(len(accepted), nalone - len(sample)))
-    plans = [("alone", [[byf[p]] for p in sample])]
-    if not quick:
-        order = list(files)
-        run.rng.shuffle(order)
-        for k in (10, 100, 200):
-            part = order[:min(len(order), 4 * k if k < 100 else len(order))]
-            plans.append(("size-%d" % k, [part[i:i + k] for i in range(0, len(part), k)]))
-    for label, batches in plans:
-        t0 = time.time()
+    rejected = [p for p, m in verdict.items() if m and p not in alone][:nalone]
+    if rejected:
         with ThreadPoolExecutor(max_workers=6) as ex:
-            outs = list(ex.map(compile_batch, batches))
+            for p, res in zip(rejected, ex.map(compile_batch, [[byf[p]] for p in rejected])):
+                alone[p] = res
+        alone_s = round(time.time() - t0, 1)
+
+    def compare(label, batches, outs, seconds):
         nfiles = 0
         for b, (v2, crash2, out2, _) in zip(batches, outs):
             for f in b:
@@ -372,7 +400,22 @@ def javac_stream(run, st, files, quick):
                                               "verdict_" + label: v2[f["pkg"]], "batch_of": len(b)})
                 elif a and [m.split(":", 1)[1] for m in verdict[f["pkg"]]] != [m.split(":", 1)[1] for m in v2[f["pkg"]]]:
                     run.tally("batch_vs_" + label, "same-verdict-different-messages")
-        run.cov.setdefault("batch_comparisons", {})[label] = {"batches": len(batches), "files": nfiles, "seconds": round(time.time() - t0, 1)}
+        bc = run.cov.setdefault("batch_comparisons", {}).setdefault(label, {"batches": 0, "files": 0, "seconds": 0.0})
+        bc["batches"] += len(batches)
+        bc["files"] += nfiles
+        bc["seconds"] = round(bc["seconds"] + seconds, 1)
+
+    compare("alone", [[byf[p]] for p in alone], list(alone.values()), alone_s)
+    if not quick:
+        order = list(files)
+        run.rng.shuffle(order)
+        for k in (10, 100, 200):
+            part = order[:min(len(order), 4 * k if k < 100 else len(order))]
+            batches = [part[i:i + k] for i in range(0, len(part), k)]
+            t1 = time.time()
+            with ThreadPoolExecutor(max_workers=6) as ex:
+                outs = list(ex.map(compile_batch, batches))
+            compare("size-%d" % k, batches, outs, time.time() - t1)
 
 
 # =================================================================== verdict
@@ -433,19 +476,19 @@ def check(run):
     pipeline.setup()
     run.assumptions += ASSUMPTIONS
     run.cov["rule"] = (
-        "case = (seed, 4 generator switches, stage gen|erase) of the real pipeline for Java (max_depth %d, cap %ds); compared: "
+        "case = (seed, 4 generator switches, max_depth, stage gen|erase) of the real pipeline for Java (max_depth <= %d, cap <= %ds); compared: "
         "(a) model text == JavaTranslator text byte for byte; (b) javac verdict of the emitted file in one batch (tool's command "
         "line + real analyze_compiler_output) == accepted, and == its verdict when compiled alone / in batches of other sizes. "
         "non-trivial = program with more than one top-level declaration; distinct by (seed, switches, stage)" % (MAX_DEPTH, CAP))
     run.cov["exhaustive"] = False
     n = 60 if quick else 2400
     st = {"diffs": [], "unmodelled": [], "equal": 0, "rejections": [], "batch_diffs": []}
-    specs = make_specs(run, n)
+    specs = make_specs(run, n, quick)
     t0 = time.time()
     chunk = 600
     files, reqs_all, metas_all = [], [], []
     for a in range(0, len(specs), chunk):
-        results = pipeline.run_many(specs[a:a + chunk])
+        results = run_budgeted(run, specs[a:a + chunk], 75) if quick else pipeline.run_many(specs[a:a + chunk])
         fs, reqs, metas = text_stream(run, st, results)
         files += fs
         if a == 0:
@@ -458,9 +501,22 @@ def check(run):
     run.cov["texts_unmodelled"] = len(st["unmodelled"])
     run.cov["unmodelled_samples"] = st["unmodelled"][:3]
     real_history(run, st, 3 if quick else 6)
-    # javac: batches of at most 400 files per invocation for the reference verdicts (hephaestus' own batches are smaller)
-    for a in range(0, len(files), 400):
-        javac_stream(run, st, files[a:a + 400], quick or a > 0)
+    # javac: the original and the erased translation of a program carry the same package (as in hephaestus, where the
+    # mutated program replaces the original under its package), so the two stages are compiled in separate source trees;
+    # batches of at most 400 files per invocation for the reference verdicts (hephaestus' own batches are smaller)
+    groups = []
+    for stage in ("gen", "erase"):
+        fs = [f for f in files if f["stage"] == stage]
+        groups += [(fs[a:a + 400], quick or a > 0) for a in range(0, len(fs), 400)]
+    with ThreadPoolExecutor(max_workers=4) as ex:
+        if quick:       # the two stages side by side
+            jobs = [(javac_start(run, ex, fs, q), q) for fs, q in groups if fs]
+            for job, q in jobs:
+                javac_finish(run, st, job, q)
+        else:
+            for fs, q in groups:
+                if fs:
+                    javac_finish(run, st, javac_start(run, ex, fs, q), q)
     run.cov["javac_rejections"] = len(st["rejections"])
     run.cov["batch_verdict_changes"] = len(st["batch_diffs"])
     run.cov["correspondence_differs"] = len(st["diffs"])
@@ -486,6 +542,7 @@ def replay(run, rp):
     r["stages"] = {stage: r["stages"][stage]}
     files, _, _ = text_stream(run, st, [r])
     run.cov["rule"] = "replay of one recorded program"
-    javac_stream(run, st, files, True)
+    with ThreadPoolExecutor(max_workers=2) as ex:
+        javac_finish(run, st, javac_start(run, ex, files, True), True)
     run.log("text equal: %s; javac rejections: %d" % (st["equal"] == len(files), len(st["rejections"])))
     verdict(run, st, True)
